@@ -23,11 +23,33 @@ def robotics_configs(ctx):
     return [c for c in ctx.configs if "robotics" in factsmod.CONFIGS[c]]
 
 
+def rule_converted_once(ctx, fx, config):
+    """ONCE:sexagesimal-converts-only-at-top-level — inside a unit function (`sexagesimal_is_time == false`) the wrapping
+    `deg()` / `rad()` converts its argument; a sexagesimal literal that multiplies by DEG2RAD there as well is converted twice.
+    Every product with DEG2RAD in the literal's reader lies on the true edge of the `sexagesimal_is_time` test."""
+    f = fx.fn(P + "try_parse_sexagesimal")
+    ctx.saw(f)
+    tests = [(sb, tt) for sb, sym, tt, ff in bool_switches(f) if render(sym).endswith("sexagesimal_is_time")]
+    n = 0
+    for b, i, s_ in f.stmts():
+        if s_["k"] != "assign" or s_["rv"]["k"] != "bin" or s_["rv"].get("op") != "Mul":
+            continue
+        cs = [o["c"] for o in (s_["rv"]["a"], s_["rv"]["b"]) if "c" in o]
+        if not any(str(c.get("named", "")).endswith("DEG2RAD") or str(c.get("v", "")).startswith("0.01745329251994") for c in cs):
+            continue
+        n += 1
+        okk = any(f.edge_dominates(sb, tt, b) for sb, tt in tests)
+        ctx.check(okk, "ONCE", "C19:ONCE:sexagesimal-converts-only-at-top-level#%d" % n, "the literal converts to radians only outside unit functions (under `sexagesimal_is_time`)",
+                  "try_parse_sexagesimal multiplies by DEG2RAD on a path where `sexagesimal_is_time` is false (line %s): inside deg(..) / rad(..) the wrapping unit converts again — degrees are converted twice" % s_.get("ln"), config, ctx.where(f, b))
+    ctx.floor("ONCE.literal-conversions", n, 1, config)
+
+
 def run(ctx):
     cfgs = robotics_configs(ctx)
     ctx.floor("configs-with-robotics", len(cfgs), 1, None)
     for config in cfgs:
         fx = ctx.facts(config)
+        rule_converted_once(ctx, fx, config)
         methods = [f for f in fx.fns.values() if f.npath.startswith(P) and f.kind == "assoc"]
         ctx.floor("RECUR.parser-methods", len(methods), 15, config)
         expr = fx.fn(P + "expr")
